@@ -337,4 +337,5 @@ VARIANTS = [
     V("edge-transposed", D, "                path_matrix[i, j] = True\n", "                path_matrix[j, i] = True\n", "C15.R4"),
     V("silent-rename-indices", D, "path_matrix[:, j] |= path_matrix[:, i]", "path_matrix[:, j] = path_matrix[:, j] | path_matrix[:, i]", None),
     V("reserved-name-used", "src/leaspy/models/logistic.py", "            g=LinkedVariable(Exp(\"log_g\")),", "            g=LinkedVariable(Exp(\"log_g\")),\n            lonely=Hyperparameter(1.0),", "C15.R3"),
+    V("silent-rename-sorted-nodes", D, "sorted_nodes", "order", None, count=16),
 ]
